@@ -301,6 +301,40 @@ def main():
                 texts.add(text); seen |= pairs(root)
                 shapes.append((root, order, text, g.leaves))
                 break
+    # targeted shapes (scheduler-affinity trait): every adaptor at the root with exactly one child that can complete on another
+    # context (a harness leaf) while every other child is statically scheduler-affine (just / just_void_or_done / always-inline leaf),
+    # once per child position: a trait computed from the wrong subset of children then claims affinity for an operation that hops
+    hop = ("K_LEAF", "K_LEAFV", "K_LEAF_ND")
+    aff = ("K_JUST", "K_JVOD", "K_LEAF_AI")
+    got = set()
+    for k in KINDS:
+        if k in hop or k in aff or k in ("K_JUST_FROM", "K_SIR", "K_SCHEDULE", "K_REF", "K_ERRREF", "K_REQSTOP", "K_VARIANT", "K_WITH_ALLOC"):
+            continue
+        if allowed is not None and k not in allowed:
+            continue
+        for vt0 in (V, E):
+            for attempt in range(120):
+                g = Gen(rng, 1, 6, set([k]) | set(hop) | set(aff))
+                g.force = {0: k}
+                try:
+                    root = g.gen(vt0, 0, {})
+                except Exception:
+                    break
+                if root.kind != k:
+                    break
+                kids = [c for c in root.children if not c.hidden]
+                hops = [i for i, c in enumerate(kids) if c.kind in hop]
+                if len(hops) != 1 or any(c.kind not in hop + aff for c in kids):
+                    continue
+                key = (k, vt0, len(kids), hops[0])
+                if key in got:
+                    continue
+                order = number(root)
+                text = cpp(root)
+                if text in texts or len(text) > 1500:
+                    got.add(key); continue
+                got.add(key); texts.add(text); seen |= pairs(root)
+                shapes.append((root, order, text, g.leaves))
     os.makedirs(a.out, exist_ok=True)
     for f in os.listdir(a.out):
         if f.startswith(a.prefix + "_") and f.endswith(".cpp"):
